@@ -21,6 +21,7 @@ Cls == last.op \o (IF last.op \in {"until", "since"} THEN "/" \o last.lg ELSE ""
 ZJ(z) == z
 CaseOf ==
   CASE last.op \in {"add", "subtract"} -> [op |-> "Zoned." \o last.op, cls |-> Cls, args |-> [zone |-> last.z, t |-> last.t, dur |-> last.dur, ovf |-> last.ovf], out |-> last.out]
+    [] last.op \in {"until", "since"} /\ "oz" \in DOMAIN last -> [op |-> "Zoned." \o last.op, cls |-> Cls \o "/other-zone", args |-> [zone |-> last.z, t |-> last.t, other |-> last.t2, oz |-> last.oz, st |-> [largest |-> last.lg]], out |-> last.out]
     [] last.op \in {"until", "since"} -> [op |-> "Zoned." \o last.op, cls |-> Cls, args |-> [zone |-> last.z, t |-> last.t, other |-> last.t2, st |-> [largest |-> last.lg]], out |-> last.out]
     [] last.op = "withPlainTime" -> [op |-> "Zoned.withPlainTime", cls |-> Cls \o "/" \o Classify(last.z, (Wall(last.z, last.t) \div 86400) * 86400 + last.sod),
                                      args |-> [zone |-> last.z, t |-> last.t, sod |-> last.sod], out |-> last.out]
